@@ -642,6 +642,12 @@ func hintOutput(v ssa.Value) (ssa.Value, int64, bool) {
 	if !ok {
 		return nil, 0, false
 	}
+	if wc, isCall := ia.X.(*ssa.Call); isCall {
+		// the outputs of a forwarding wrapper around NewHint (mustHint)
+		if _, isW := hintWrapper(wc.Call.StaticCallee()); isW {
+			return wc, i, true
+		}
+	}
 	ex, ok := ia.X.(*ssa.Extract)
 	if !ok {
 		return nil, 0, false
